@@ -229,18 +229,33 @@ static void DropAllTables(sqlite3 *db)
 {
     int rc;
     char *err_msg = 0;
-    const char *dropAllObjectsSQL = "SELECT 'DROP TABLE IF EXISTS ' || name || ';' FROM sqlite_master WHERE type = 'table';";
-    /* Execute SQL statement */
-    rc = sqlite3_exec(db, dropAllObjectsSQL, 0, 0, &err_msg);
+    sqlite3_stmt *stmt;
+    strvector *drops;
+    size_t i;
+    const char *dropAllObjectsSQL = "SELECT 'DROP TABLE IF EXISTS ' || name || ';' FROM sqlite_master WHERE type = 'table' AND name NOT LIKE 'sqlite_%';";
+
+    /* Collect the DROP statements first, then execute them: a model written to an
+     * existing file replaces the previous one instead of being appended to it. */
+    initStrVector(&drops);
+    rc = sqlite3_prepare_v2(db, dropAllObjectsSQL, -1, &stmt, 0);
     if(rc != SQLITE_OK){
-        fprintf(stderr, "SQL error: %s\n", err_msg);
-        sqlite3_free(err_msg);
+        fprintf(stderr, "SQL error: %s\n", sqlite3_errmsg(db));
+        DelStrVector(&drops);
+        return;
     }
-    #ifdef DEBUG
-    else{
-        fprintf(stdout, "Table created successfully\n");
+    while(sqlite3_step(stmt) == SQLITE_ROW){
+        StrVectorAppend(drops, (char*)sqlite3_column_text(stmt, 0));
     }
-    #endif
+    sqlite3_finalize(stmt);
+
+    for(i = 0; i < drops->size; i++){
+        rc = sqlite3_exec(db, drops->data[i], 0, 0, &err_msg);
+        if(rc != SQLITE_OK){
+            fprintf(stderr, "SQL error: %s\n", err_msg);
+            sqlite3_free(err_msg);
+        }
+    }
+    DelStrVector(&drops);
 }
 
 static void CloseDB(sqlite3 *db)
